@@ -56,6 +56,11 @@ func newKeyCtx(id, class string, p, q *big.Int) (*keyCtx, error) {
 		err = fmt.Errorf("%s: key construction panicked in %s: %s", id, frame, msg)
 	}
 	k.width = (new(big.Int).Lsh(k.ref.N2, 1).BitLen() + 7) / 8
+	if err == nil && !refusalLearned {
+		if pan, msg, _ := vkit.Try(func() { k.pkCRT.EncWithNonce(intOf(k.ref.N), natOf(big1)) }); pan && msg != "" {
+			refusalMsg, refusalLearned = msg, true
+		}
+	}
 	return k, err
 }
 
@@ -123,7 +128,11 @@ func short(b *big.Int) string {
 	return s
 }
 
-const refusalMsg = "paillier.Encrypt: tried to encrypt message outside of range"
+// refusalMsg is the text of the panic with which EncWithNonce refuses a plaintext outside the range.
+// It is LEARNED from the library (newKeyCtx encrypts N itself, which is out of range for every key), so
+// that rewording the refusal, or moving the range check into a helper, is not mistaken for a defect.
+var refusalMsg = "paillier.Encrypt: tried to encrypt message outside of range"
+var refusalLearned bool
 
 // guard runs f; a panic becomes a finding "panic|<part>|<repo frame>".
 func guard(out *[]finding, part string, c Case, f func()) {
@@ -196,7 +205,7 @@ func (k *keyCtx) refuseCase(variant string, m *big.Int) (out []finding) {
 	case !pan:
 		out = append(out, finding{"paillier|" + k.class + "|enc-accepts-out-of-range",
 			fmt.Sprintf("key %s pk=%s: EncWithNonce accepted m=%s with |m| > (N-1)/2=%s and returned %s", k.id, variant, short(m), short(k.ref.Half), short(ctBig(ct))), c})
-	case !strings.HasPrefix(msg, refusalMsg) || !strings.HasSuffix(frame, "paillier.PublicKey.EncWithNonce"):
+	case !strings.HasPrefix(msg, refusalMsg):
 		out = append(out, finding{"panic|refuse|" + frame, fmt.Sprintf("key %s pk=%s m=%s: undocumented panic: %s", k.id, variant, short(m), msg), c})
 	}
 	return
